@@ -1532,7 +1532,35 @@ def check_rr_history(rp, ops):
         if st == FWD: fw[uid] = fw.get(uid, 0) + 1
     for uid, k in fw.items():
         if k != 1: probs.append('%s forwarded %d times' % (uid, k))
+    # a task that names a pilot waits for it: once that pilot has been added it is forwarded
+    ever_added = set(p for op in ops if op[0] == 'add' for p in op[1])
+    for uid, pid in sorted(named_of.items()):
+        if pid in ever_added and not fw.get(uid):
+            last_add = max(i for i, op in enumerate(ops) if op[0] == 'add' and pid in op[1])
+            sub_at = [i for i, op in enumerate(ops) if op[0] == 'submit']
+            probs.append('%s names pilot %s, which was added (operation %d), but was never forwarded' % (uid, pid, last_add))
     return probs
+
+
+def rr_random_histories(seed, n):
+    import random
+    rnd = random.Random(seed)
+    for _ in range(n):
+        ops, added = [], set()
+        for _ in range(rnd.randint(2, 8)):
+            r = rnd.random()
+            if r < 0.3:
+                ps = rnd.sample(['p1', 'p2', 'p3'], rnd.randint(1, 2))
+                ps = [p for p in ps if p not in added]
+                if ps: ops.append(('add', ps)); added |= set(ps)
+            elif r < 0.4 and added:
+                p = rnd.choice(sorted(added)); ops.append(('remove', [p])); added.discard(p)
+            else:
+                ops.append(('submit', rnd.randint(1, 3), rnd.choice([None, None, 'p1', 'p2', 'p3'])))
+        # every named pilot is added in the end, so that every named task must have been forwarded
+        rest = [p for p in ('p1', 'p2', 'p3') if p not in added]
+        if rest: ops.append(('add', rest))
+        yield ops
 
 
 @builder('tmgr/scheduler/base.py:TMGRSchedulingComponent.control_cb',
@@ -1553,7 +1581,9 @@ def tmgr_rr(case, rp):
         [('submit', 2, 'p1'), ('submit', 1, 'p2'), ('add', ['p1', 'p2', 'p3'])],
         [('submit', 1, 'p3'), ('submit', 2, 'p2'), ('add', ['p2', 'p3']), ('add', ['p1'])],
         [('add', ['p1', 'p2']), ('submit', 1, None), ('submit', 1, None), ('submit', 1, None), ('remove', ['p2']), ('submit', 3, None)],
+        [('submit', 2, 'p1'), ('submit', 1, 'p1'), ('submit', 1, 'p2'), ('submit', 2, 'p1'), ('add', ['p1']), ('add', ['p2'])],
     ]
+    histories += list(rr_random_histories(1207, 150))
     for k, h in enumerate(histories):
         probs = check_rr_history(rp, h)
         if probs:
@@ -1724,6 +1754,60 @@ def popen_launch(case, rp):
                 return dict(confirmed=True, detail='; '.join(probs[:3]), input=dict(cancel_pending=pending, exit_code=code),
                             found_by='bounded native launch scenarios (%d tried)' % n)
     return dict(confirmed=False, detail='%d launch scenarios hold natively' % n)
+
+
+def raptor_backlog_cases():
+    """(backlogs {queue: [uids]}, named uids)"""
+    import itertools
+    out = []
+    names = ['a', 'b', 'c', 'd']
+    for n in (1, 2, 3, 4):
+        for named in itertools.chain.from_iterable(itertools.combinations(names[:n], k) for k in range(0, n + 1)):
+            out.append(({'master.0': names[:n]}, list(named)))
+    out.append(({'master.0': ['a', 'b'], '*': ['c', 'd'], 'master.1': ['e']}, ['b', 'c', 'd', 'x']))
+    out.append(({'master.0': ['a', 'b', 'c'], '*': ['d', 'e', 'f']}, ['a', 'b', 'c', 'd', 'e', 'f']))
+    out.append(({'*': ['a', 'b', 'c', 'd', 'e']}, ['e', 'd', 'a']))
+    return out
+
+
+@builder('agent/scheduler/base.py:AgentSchedulingComponent.control_cb#raptor-cancel')
+def raptor_backlog_cancel(case, rp):
+    """the real scheduler control_cb with cancel_tasks on raptor backlogs: every named
+    task leaves its backlog and is canceled once, every other task stays, in order"""
+    import threading, queue as q_
+    from radical.pilot.agent.scheduler.base import AgentSchedulingComponent as ASC
+    n = 0
+    for backlogs, named in raptor_backlog_cases():
+        n += 1
+        c = object.__new__(ASC)
+        c._log, c._prof = Stub(), Stub()
+        c._scheduler_process = True
+        c._raptor_lock = threading.Lock()
+        c._queue_sched = q_.Queue()
+        c._raptor_tasks = {k: [{'uid': u, 'state': 'AGENT_SCHEDULING'} for u in v] for k, v in backlogs.items()}
+        c._raptor_queues = {}
+        adv = []
+        c.advance = lambda things, state=None, **kw: adv.extend((t['uid'], state) for t in (things if isinstance(things, list) else [things]))
+        try:
+            c.control_cb('control_pubsub', {'cmd': 'cancel_tasks', 'arg': {'uids': list(named)}})
+        except Exception as e:
+            return dict(confirmed=True, detail='control_cb raised %r' % e, input=dict(backlogs=backlogs, cancel=named))
+        probs = []
+        for k, v in backlogs.items():
+            left = [t['uid'] for t in c._raptor_tasks.get(k, [])]
+            want = [u for u in v if u not in named]
+            if left != want:
+                probs.append('backlog %s holds %s after the cancel, expected %s' % (k, left, want))
+        want_c = sorted(u for v in backlogs.values() for u in v if u in named)
+        got_c = sorted(u for u, s in adv if s == 'CANCELED')
+        if got_c != want_c or any(s != 'CANCELED' for u, s in adv):
+            probs.append('reported CANCELED: %s, expected %s' % ([a for a in adv], want_c))
+        if c._queue_sched.qsize() != 1:
+            probs.append('the scheduler process was told %d times' % c._queue_sched.qsize())
+        if probs:
+            return dict(confirmed=True, detail='; '.join(probs[:3]), input=dict(backlogs=backlogs, cancel=named),
+                        found_by='bounded native enumeration of raptor backlogs (%d tried)' % n)
+    return dict(confirmed=False, detail='%d raptor backlog cancels hold natively' % n)
 
 
 @builder('raptor/master.py:Master._submit_tasks')
